@@ -122,6 +122,7 @@ inductive Op where
   | moveOut                      -- `reusable_storage b(std::move(a))` into a re-constructed `other`, or `other = std::move(a)`;
                                  -- the receiving object is the storage from now on, the moved-from one becomes `other`
   | swapobj                      -- from now on the caller uses `other` (no move, both objects keep what they own)
+  | allocThrow (k : Nat) (sz : Nat)  -- `promise_extra_storage::alloc` whose factory / `T`'s constructor throws
   deriving DecidableEq, Repr
 
 inductive Res where
@@ -271,6 +272,21 @@ def stepSwapobj (s : State) : State × Res :=
                            ok := s.ok && s.frames.isEmpty }, Res.unit)
   | _ => (s, Res.bad)
 
+/-- forget the bookkeeping of a frame that never came into existence -/
+def State.sameFramesAs (t s : State) : State :=
+  { t with nextFrame := s.nextFrame, born := s.born, died := s.died, inventory := s.inventory }
+
+/-- `promise_extra_storage::alloc` when constructing `T` throws (repaired code): the memory obtained from the inner
+policy is given back through the inner `dealloc` before the exception leaves; no frame, no extra object -/
+def stepAllocThrow (s : State) (k sz : Nat) : State × Res :=
+  match (stepAlloc s k sz).2 with
+  | Res.alloc id _ => (((stepFree (stepAlloc s k sz).1 id).1).sameFramesAs s, Res.unit)
+  | _ => ((stepAlloc s k sz).1, (stepAlloc s k sz).2)
+
+/-- the pinned code: the exception leaves `alloc` and the memory stays with a frame that does not exist -/
+def stepAllocThrowAsIs (s : State) (k sz : Nat) : State × Res :=
+  ({ (stepAlloc s k sz).1 with frames := s.frames }.sameFramesAs s, Res.unit)
+
 def step (s : State) (op : Op) : State × Res :=
   match op with
   | Op.alloc k sz => stepAlloc s k sz
@@ -280,6 +296,7 @@ def step (s : State) (op : Op) : State × Res :=
   | Op.destroy => stepDestroy s
   | Op.moveOut => stepMoveOut s
   | Op.swapobj => stepSwapobj s
+  | Op.allocThrow k sz => stepAllocThrow s k sz
 
 def run (s : State) (ops : List Op) : State := ops.foldl (fun s op => (step s op).1) s
 
